@@ -20,7 +20,7 @@ import (
 	"verif/internal/prog"
 )
 
-const traceSet = "openat,open,creat,write,pwrite64,lseek,close,dup,dup2,dup3,fcntl,renameat,renameat2,rename,unlinkat,unlink,rmdir,mkdirat,mkdir,ftruncate,fallocate,fsync,fdatasync,getdents64,execve"
+const traceSet = "openat,open,creat,write,pwrite64,lseek,close,dup,dup2,dup3,fcntl,renameat,renameat2,rename,unlinkat,unlink,rmdir,mkdirat,mkdir,ftruncate,fallocate,fsync,fdatasync,getdents64,execve,writev,pwritev,pwritev2,link,linkat,truncate,symlink,symlinkat,copy_file_range,sendfile,splice,openat2,mmap,io_uring_setup"
 
 // InfraError marks a problem of the machinery (strace missing, emulator self-check failed): exit 2, never a violation.
 type InfraError struct{ Msg string }
